@@ -11,12 +11,20 @@ Domains (gens/jsongen.py, all Hypothesis-generated inside the workers, seeded pe
   script (iv)  values that are not JSON at some position (undefined / function / NaN / +-Infinity
                at root, in arrays, in objects), inherited properties, arrays with named
                properties, shared (acyclic) references, cycles -> catchable TypeError;
-               class "opts": toJSON, accessor properties, replacer and indent arguments
+               class "opts": toJSON, accessor properties, replacer and indent arguments;
+               half of the function leaves are callables of a random kind of G.CALLABLES
+  fn     (iv)  enumerated grid: every kind of callable the engine has (script functions, arrows,
+               bound functions, native methods, built-in constructors, host callables) x every
+               position (root, array element, property value, nested, behind toJSON / getter /
+               prototype / extra array property, with replacer / indent)
+  wide   (ii)  wide documents: hundreds to thousands of sibling members (empty and non-empty
+               arrays / objects, scalars) in one container or in groups, at depth 1-3
 Oracle: oracles/jsonref.py.  Strings are compared as UTF-16 code-unit sequences.
 """
 import collections
 import math
 import os
+import random
 
 from gens import jsongen as G
 from oracles import jsonref as J
@@ -365,10 +373,34 @@ def eval_scripts(cases):
     def script(cs):
         return "var C = [];\n" + "\n".join("C.push(%s);" % script_fn_src(c) for c in cs) + SCRIPT_LOOP
 
-    r = _run(lambda ctx: None, script(cases), len(cases))
+    r = _run(_script_setup, script(cases), len(cases))
     if r is not None:
         return r
-    return [_run_one(lambda ctx: None, script([c])) for c in cases]
+    return [_run_one(_script_setup, script([c])) for c in cases]
+
+
+def _script_setup(ctx):
+    for name, fn in G.host_callables().items():
+        ctx.set(name, fn)
+
+
+_AVAILABLE = []
+
+
+def available_callables():
+    """Kinds of G.CALLABLES whose expression evaluates to a value with typeof "function" in the
+    engine under test -> (kinds, dropped kinds)."""
+    if not _AVAILABLE:
+        parts = ["var out = [];"]
+        for _, e in G.CALLABLES:
+            parts.append('try { out.push(typeof (%s)); } catch (e) { out.push("error"); }' % e)
+        r = _run(_script_setup, "\n".join(parts) + "\nout", len(G.CALLABLES))
+        if r is None:
+            r = [_run_one(_script_setup, 'var out = []; try { out.push(typeof (%s)); } catch (e) { out.push("error"); }\nout' % e)
+                 for _, e in G.CALLABLES]
+        _AVAILABLE.append(([k for (k, _), t in zip(G.CALLABLES, r) if t == "function"],
+                           [k for (k, _), t in zip(G.CALLABLES, r) if t != "function"]))
+    return _AVAILABLE[0]
 
 
 # =========================================================================== model side
@@ -486,6 +518,8 @@ def _invalid_kind(text):
 
 
 def _valid_feature(text):
+    if text.count("[") + text.count("{") > 100:
+        return "many-containers"
     if any(ord(c) > 0x7E for c in text):
         return "non-ascii"
     if "\\u" in text:
@@ -906,21 +940,32 @@ def shard_miss(task):
     return acc.result()
 
 
+def _script_skip(c, feats, guards):
+    if "c19.accessor" in guards and "accessor" in feats:
+        return "C19-accessor: object with an accessor property"
+    if "c19.options" in guards and (feats & {"toJSON", "replacer", "indent"}):
+        return "C19-options: toJSON / replacer / indent"
+    if "c19.intkey_order" in guards and not G.recipe_key_order_ok(c["recipe"]):
+        return "C19-intkey-order: keys out of own-key order"
+    return None
+
+
 def shard_script(task):
     _, shard, n, seed, guards = task
     acc = _Acc()
     strat = G.script_domain_cases()
     cases = [normalise_script_links(c) for c in _collect(strat, n, seed)]
+    kinds, _ = available_callables()
+    rnd = random.Random(seed)  # selection only: which function leaves become which kind of callable
+
+    def other_kind(leaf):
+        return ["f", rnd.choice(kinds)] if kinds and rnd.randrange(2) else leaf
+
     kept = []
     for c in cases:
+        c["recipe"] = G.recipe_map_functions(c["recipe"], other_kind)
         feats = script_features(c)
-        skip = None
-        if "c19.accessor" in guards and "accessor" in feats:
-            skip = "C19-accessor: object with an accessor property"
-        elif "c19.options" in guards and (feats & {"toJSON", "replacer", "indent"}):
-            skip = "C19-options: toJSON / replacer / indent"
-        elif "c19.intkey_order" in guards and not G.recipe_key_order_ok(c["recipe"]):
-            skip = "C19-intkey-order: keys out of own-key order"
+        skip = _script_skip(c, feats, guards)
         if skip:
             acc.excluded[skip] += 1
             continue
@@ -1008,7 +1053,113 @@ def _script_candidates(c):
             yield dict(c, recipe=s)
 
 
-SHARDS = {"val": shard_val, "text": shard_text, "miss": shard_miss, "script": shard_script}
+def shard_fn(task):
+    """Enumerated: every available kind of callable x every position template (slice shard::nshards)."""
+    _, shard, nshards, seed, guards = task
+    acc = _Acc()
+    kinds, dropped = available_callables()
+    if shard == 0:
+        for k in dropped:
+            acc.excluded["callable kind %s: not a function in this engine" % k] += 1
+    grid = []
+    for k in kinds:
+        for name, recipe, rep, ind in G.callable_templates(["f", k]):
+            grid.append((k, name, {"recipe": recipe, "links": [], "replacer": rep, "indent": ind}))
+    kept = []
+    for k, name, c in grid[shard::nshards]:
+        skip = _script_skip(c, script_features(c), guards)
+        if skip:
+            acc.excluded[skip] += 1
+            continue
+        kept.append((k, name, c))
+    size = 40
+    for i in range(0, len(kept), size):
+        chunk = kept[i : i + size]
+        recs = eval_scripts([c for _, _, c in chunk])
+        for (k, name, c), rec in zip(chunk, recs):
+            acc.count += 1
+            family = k.split(":")[0]
+            acc.classes["fn:kind %s" % family] += 1
+            acc.classes["fn:position %s" % name] += 1
+            if name != "root":
+                acc.nontrivial.add(core.h16(["fn", k, name]))
+            vs = judge_script(c, rec)
+            if not vs and len(acc.samples) < 1 and family in ("ctor", "host", "bound") and name.startswith("nested"):
+                acc.samples.append({"sub": "fn", "js": script_fn_src(c), "expected": script_expected(c), "actual": rec})
+            for sig, e, a in vs:
+                acc.violation("%s|callable %s" % (sig, family), G.recipe_nodes(c["recipe"]) + (0 if c["replacer"] == c["indent"] else 5),
+                              {"kind": "script", "case": c, "js": script_fn_src(c), "callable": k, "position": name}, e, a)
+    return acc.result()
+
+
+def _wide_band(n):
+    return "< 400" if n < 400 else ("400-999" if n < 1000 else ">= 1000")
+
+
+def shard_wide(task):
+    _, shard, n, seed, guards = task
+    acc = _Acc()
+    rnd = random.Random(seed)  # selection only: the parameters of each document
+    cases = []
+    for _ in range(n):
+        p = G.wide_params(rnd)
+        cases.append((p, G.wide_text(p)))
+    size = 4
+    for i in range(0, len(cases), size):
+        chunk = cases[i : i + size]
+        recs = eval_texts([t for _, t in chunk], [p["n"] <= 450 for p, _ in chunk])
+        for (p, text), rec in zip(chunk, recs):
+            acc.count += 1
+            acc.classes["wide:members %s" % p["members"]] += 1
+            acc.classes["wide:%s members" % _wide_band(p["n"])] += 1
+            acc.classes["wide:%s" % ("grouped" if p["group"] else "flat")] += 1
+            acc.classes["wide:depth of the members %d" % (1 + len(p["wrap"]) + (1 if p["group"] else 0))] += 1
+            acc.nontrivial.add(core.h16(["wide", p]))
+            vs = judge_text(text, rec)
+            if not vs and len(acc.samples) < 1 and p["n"] > 400 and not p["group"]:
+                acc.samples.append({"sub": "wide", "params": p, "text": text[:60] + "...", "canonical": str(rec[3])[:60] + "..."})
+            for sig, exp, act in vs:
+                small = _shrink_wide(p, sig) if sig not in acc.viol else None
+                if small:
+                    p2, t2, exp, act = small
+                    acc.violation(sig, len(t2), {"kind": "text", "text": t2, "wide": p2}, _clip(exp), _clip(act))
+                else:
+                    acc.violation(sig, len(text) + 100000, {"kind": "text", "text": text, "wide": p}, _clip(exp), _clip(act))
+    return acc.result()
+
+
+def _clip(x):
+    s = repr(x)
+    return x if len(s) <= 400 else s[:400] + "..."
+
+
+def _shrink_wide(p, sig):
+    """Fewest members (bisection), then no wrappers / groups / separators, failing the same way."""
+    def fails(q):
+        t = G.wide_text(q)
+        res = _fails_text(t, sig)
+        return (q, t, res[0], res[1]) if res else None
+
+    best = None
+    for q in (dict(p, wrap=[], group=0, sep=""), dict(p, wrap=[], sep=""), dict(p, sep=""), p):
+        best = fails(q)
+        if best:
+            break
+    if not best:
+        return None
+    lo, hi = 0, best[0]["n"]  # invariant: hi fails
+    while hi - lo > 1:
+        mid = (lo + hi) // 2
+        r = fails(dict(best[0], n=mid)) if mid > 0 else None
+        if r:
+            hi, best = mid, r
+        else:
+            lo = mid
+    return best
+
+
+SHARDS = {"val": shard_val, "text": shard_text, "miss": shard_miss, "script": shard_script, "fn": shard_fn,
+          "wide": shard_wide}
 
 
 def run_shard(task):
@@ -1080,6 +1231,8 @@ BUDGET = {  # cases per domain
     "thorough": {"val": 600000, "text": 600000, "miss": 500000, "script": 300000},
 }
 SHARD_SIZE = {"quick": 500, "thorough": 4000}
+WIDE = {"quick": (16, 40), "thorough": (64, 100)}  # (shards, wide documents per shard)
+FN_SHARDS = 16  # the callable grid is enumerated completely in both tiers
 
 
 def active_guards(chk):
@@ -1102,14 +1255,18 @@ def main(chk):
     chk.rule = (
         "value: depth >= 2 and a string needing escaping or a non-integer number; text: >= 1 escape and insignificant "
         "whitespace; every near-miss text the reference parser rejects; script value: a non-JSON value below the root, "
-        "a cycle, or the opts class (toJSON / accessor / replacer / indent); distinct by case content"
+        "a cycle, or the opts class (toJSON / accessor / replacer / indent); fn: a callable below the root; wide: every "
+        "document (>= 100 sibling members); distinct by case content"
     )
     chk.assumptions = [
         "oracles/jsonref.py transcribes JSON.parse / SerializeJSONProperty / QuoteJSONString (validated against node 20 at "
         "development time: oracle_validation/jsonref.json)",
         "strings are compared as UTF-16 code-unit sequences: the engine's code-point string model (C16) is not judged here",
         "Context.set hands lists/dicts/str/int/float/bool/None to the script unchanged (C11 checks that separately)",
-        "no reviver argument (the engine has none); texts stay below 10^4 characters and depth 7",
+        "no reviver argument (the engine has none); grammar texts stay below 10^4 characters and depth 7, wide documents "
+        "below 10^5 characters, 3000 members and depth 6",
+        "a function value is never called by JSON.stringify unless it is the toJSON property: every callable kind is "
+        "modelled as one opaque function (ES SerializeJSONProperty: not serialisable)",
     ]
     known_repros = set()
     for e in chk.findings:
@@ -1132,6 +1289,10 @@ def main(chk):
         nshards = max(1, total // size)
         for s in range(nshards):
             tasks.append((dom, s, size, core.shard_seed(chk.seed, ID, dom, s), guards))
+    for s in range(FN_SHARDS):
+        tasks.append(("fn", s, FN_SHARDS, core.shard_seed(chk.seed, ID, "fn", s), guards))
+    for s in range(WIDE[chk.tier][0]):
+        tasks.append(("wide", s, WIDE[chk.tier][1], core.shard_seed(chk.seed, ID, "wide", s), guards))
     res = pool.run(run_shard, tasks, timeout=900)
     merged = {}
     for task, r in zip(tasks, res):
